@@ -19,6 +19,8 @@ ASPECTS = {
     "C01.entry": ("shape", "options", "fresh", "context", "source", "adaptor-char", "tail-ok", "tail-verdict", "utf8"),
     "C05.entry": ("fresh", "adaptor-len", "tail-ok"),
     "C07.entry": ("shape", "fresh", "adaptor-len", "tail-err"),
+    # the leniency flags act inside the string scanner only: no entry point branches on them or decodes its input differently
+    "C12.entry": ("shape", "options", "source"),
 }
 
 
